@@ -159,7 +159,7 @@ def rec(key, sw, te, tr, te2, tr2, v, w):
 
 
 UNIV = {'quick': [(c, (0., 1., 2.), 1, 1) for c in ('UnitSquare', 'PiSquare', 'Circle', 'LShape')] + [('UnitSquare', (0., 1.), 1, 2), ('Circle', (0., 1.), 0, 2)]
-                 + [('UnitSquare', (0., 2.0**-9), 0, 2), ('UnitSquare', (0., 2.0**-11), 0, 3), ('Circle', (0., 2.0**-9), 0, 3)],  # short end times: only the seam / corner couples
+                 + [('UnitSquare', (0., 2.0**-9), 0, 2), ('UnitSquare', (0., 2.0**-11), 0, 3), ('Circle', (0., 2.0**-9), 0, 3), ('PiSquare', (0., 2.0**-9), 0, 4)],  # short end times: only the seam / corner couples
         'thorough': [(c, (0., 1., 2., 3.), 1, 2) for c in ('UnitSquare', 'PiSquare', 'Circle', 'LShape')] + [(c, (0., 1.), 2, 3) for c in ('UnitSquare', 'Circle')]
                     + [('UnitSquare', (0., 2.0**-9), 1, 2), ('UnitSquare', (0., 2.0**-11), 0, 3), ('Circle', (0., 2.0**-9), 0, 3), ('PiSquare', (0., 2.0**-9), 0, 4), ('UnitSquare', (0., 2.0**-9, 1.), 0, 2)]}
 
